@@ -411,6 +411,12 @@ class C08(common.Prop):
                     po = pre["op"]
                     b = b.get_points(list(po[1])) if po[0] == "get_points" else \
                         b.select_frames(list(po[1])) if po[0] == "select_frames" else b[slice(po[1], po[2], po[3])]
+                if kind == "numpy" and b.data.shape[0] >= 1 and (len(case["data"]) + len(case["ops"])) % 3 == 0:
+                    # caller-side variety: the owner re-assigned body.data with an equal masked array it assembled itself
+                    # (ma.stack / ma.concatenate of the frames, as normalize_hands_3d does): same values, same mask, NumPy's
+                    # default fill_value
+                    import numpy.ma as _ma
+                    b.data = _ma.stack(list(b.data)) if len(case["ops"]) % 2 else _ma.concatenate([b.data[:1], b.data[1:]])
                 out["read"].append(["ok", dump_body(b, kind)])
                 bodies.append(b)
             except Exception as e:
